@@ -172,8 +172,22 @@ def _load_map(eng, st, ref):
     return ref, m
 
 
+WIDE = 4096
+
+
+def _norm_key(k):
+    """keys built from abstract byte strings vary in width with the shape of the bytes: normalise them to one width
+    (width tag + zero padding) so that differently shaped keys are simply different keys"""
+    w = k.size()
+    if w <= 512:
+        return k
+    if w > WIDE:
+        raise SymError("map key wider than the modelled maximum")
+    return simp(z3.Concat(bv(w, 16), z3.ZeroExt(WIDE - w, k)))
+
+
 def _key_of(eng, st, kref):
-    return key_bv(deref(eng, st, kref))
+    return _norm_key(key_bv(deref(eng, st, kref)))
 
 
 def _map_select(m, k):
@@ -226,7 +240,7 @@ def _map_contains(eng, st, args, dty, callee, m):
 def _map_put(eng, st, args, dty, callee, m):
     ref, mp = _load_map(eng, st, args[0])
     kv = args[1]
-    k = key_bv(deref(eng, st, kv) if isinstance(kv, VRef) else kv)
+    k = _norm_key(key_bv(deref(eng, st, kv) if isinstance(kv, VRef) else kv))
     v = args[2]
     mp = _map_prepare(eng, mp, k)
     pres = simp(z3.Select(mp.present, k))
@@ -282,7 +296,7 @@ def _entry_or_insert(eng, st, args, dty, callee, m):
     ent = args[0]
     ref, kv = ent.f
     ref, mp = _load_map(eng, st, ref)
-    k = key_bv(kv)
+    k = _norm_key(key_bv(kv))
     mp = _map_prepare(eng, mp, k)
     pres = simp(z3.Select(mp.present, k))
     kind = m.group(2)
